@@ -14,12 +14,14 @@ import tempfile
 from mc.build import im as IM
 from mc.build import ti as TI
 from mc.core.util import call, exc_name
+from mc.models import ini
 
 ID = "C16"
 LEVEL = "exploration"
 REQUIRED_OUTCOMES = ["digest:ok", "digest:short-read:ok", "digest:variable-length-refused-or-standard", "path:normalised",
                      "path:absolute-refused", "section:loaded", "section:rejected", "section:bare-digest-typed",
-                     "add_checksum:conflict-refused", "add_checksum:kept"]
+                     "add_checksum:conflict-refused", "add_checksum:kept", "table:each-path-its-own-entry",
+                     "table:absolute-path-not-written", "table:absolute-path-not-read"]
 
 MIB = 1024 ** 2
 SIZES = [0, 1, MIB - 1, MIB, MIB + 1, 2 * MIB - 1, 2 * MIB, 2 * MIB + 1, 3 * MIB + 17]
@@ -225,6 +227,53 @@ def eval_legacy_section(paths):
     return {"load": "ok", "keys": sorted(got), "each_path_has_its_own_digest": got == want}
 
 
+# ---- (ii b) tables of several paths, filled in every order ---------------------------------------
+
+TABLE_PATHS = ["images/boot.iso", "LiveOS/squashfs.img", ".discinfo", "zz/last.img", "-dash/first", "Images/Upper.img", "../up/x"]
+TABLE_TYPES = ["sha256", "md5", "sha1", "sha512", "sha256", "md5", "sha1"]
+ABS_PATH = "/mnt/tree/images/boot.iso"
+
+
+def _entry(p):
+    t = TABLE_TYPES[TABLE_PATHS.index(p)] if p in TABLE_PATHS else "sha256"
+    return [t, hashlib.new(t, p.encode()).hexdigest()]
+
+
+def eval_table(paths, how):
+    """paths (in this order) recorded through add() with a supplied digest ('add') or set in the mapping ('raw'); an absolute
+    path is always put into the mapping directly (add() refuses it).  Then write, read, compare line by line."""
+    import productmd.treeinfo as pt
+    ti = TI.build(dict(TI.seed_flat(), checksums={}))
+    for p in paths:
+        t, v = _entry(p)
+        if how == "add" and not p.startswith("/"):
+            r = call(ti.checksums.add, p, t, v)
+            if r[0] != "ok":
+                return {"dump": "add refused: " + r[1]}
+        else:
+            ti.checksums.checksums[p] = [t, v]
+    keys = sorted(ti.checksums.checksums)
+    w = call(TI.dumps, ti)
+    if w[0] != "ok":
+        return {"dump": w[1], "keys": keys}
+    lines = ini.as_dict(w[1]).get("checksums", {})
+    back = pt.TreeInfo()
+    r = call(back.loads, w[1])
+    return {"dump": "ok", "keys": keys, "written": {k: v.split(":", 1) for k, v in lines.items()},
+            "load": "ok" if r[0] == "ok" else r[1],
+            "table": {k: list(v) for k, v in back.checksums.checksums.items()} if r[0] == "ok" else None}
+
+
+def eval_table_text(paths):
+    """the same table as the text of a current-format file"""
+    import productmd.treeinfo as pt
+    text = base_text() + "\n[checksums]\n" + "".join("%s = %s:%s\n" % (p, _entry(p)[0], _entry(p)[1]) for p in paths)
+    ti = pt.TreeInfo()
+    r = call(ti.loads, text)
+    return {"load": "ok" if r[0] == "ok" else r[1],
+            "table": {k: list(v) for k, v in ti.checksums.checksums.items()} if r[0] == "ok" else None}
+
+
 # ---- (iii) add_checksum histories --------------------------------------------------------------
 
 VALUES = ["x" * 64, "y" * 64, "", None]
@@ -272,6 +321,8 @@ def units(tier, seed):
     us = [("digest", a, sizes) for a in algos()]
     us.append(("paths",))
     us.append(("legacy-sections",))
+    for first in TABLE_PATHS:
+        us.append(("tables", first, 2 if tier == "quick" else 3))
     n = 2 if tier == "quick" else 3
     names = sorted(SHAPES)
     for first in names:
@@ -346,6 +397,44 @@ def run_unit(unit, acc):
                                   "pre-productmd [checksums] %s loads as %s" % (list(paths), o))
                 else:
                     acc.outcome("section:loaded")
+    elif k == "tables":
+        _, first, n = unit
+        others = [p for p in TABLE_PATHS if p != first]
+        for m in range(0, n):
+            for rest in itertools.permutations(others, m):
+                paths = [first] + list(rest)
+                want_table = {norm(p) if not p.startswith("..") else p: _entry(p) for p in paths}
+                for how in ("add", "raw"):
+                    if how == "raw":
+                        want_table = {p: _entry(p) for p in paths}
+                    o = eval_table(paths, how)
+                    acc.ev()
+                    case = {"kind": "table", "paths": paths, "how": how}
+                    want = {"dump": "ok", "keys": sorted(want_table), "written": want_table, "load": "ok", "table": want_table}
+                    if o != want:
+                        acc.violation("table", case, o, "checksums recorded (%s) in the order %s: after write + read %s, expected every path "
+                                      "with its own type and value %s" % (how, paths, {x: o.get(x) for x in ("dump", "load", "table")}, want_table))
+                    else:
+                        acc.outcome("table:each-path-its-own-entry")
+                    if len(paths) > 1:
+                        acc.nontriv(("table", tuple(paths), how))
+                # an absolute path at every position among them: the object must not be written, the text must not be read
+                for pos in range(len(paths) + 1):
+                    mixed = paths[:pos] + [ABS_PATH] + paths[pos:]
+                    o = eval_table(mixed, "raw")
+                    acc.ev()
+                    if o.get("dump") not in ("ValueError", "TypeError"):
+                        acc.violation("table-absolute", {"kind": "table", "paths": mixed, "how": "raw"}, o,
+                                      "a checksum table %s holding an absolute path was written (%s)" % (mixed, o.get("dump")))
+                    else:
+                        acc.outcome("table:absolute-path-not-written")
+                    o = eval_table_text(mixed)
+                    acc.ev()
+                    if o["load"] == "ok":
+                        acc.violation("table-absolute-load", {"kind": "table-text", "paths": mixed}, o,
+                                      "a [checksums] section %s holding an absolute path was read: %s" % (mixed, o["table"]))
+                    else:
+                        acc.outcome("table:absolute-path-not-read")
     elif k == "sections":
         _, first, n = unit
         names = sorted(SHAPES)
@@ -392,6 +481,10 @@ def run_unit(unit, acc):
 
 def replay(case):
     k = case["kind"]
+    if k == "table":
+        return eval_table(case["paths"], case["how"])
+    if k == "table-text":
+        return eval_table_text(case["paths"])
     if k == "digest":
         return eval_digest(case["size"], case["algo"], case["k"], case["short"])
     if k == "add":
